@@ -10,7 +10,7 @@ ID = 'C16'
 RULE = ('the same deterministic case file is executed by harness binaries compiled for {baseline, +sse4.1, +avx, +avx2}; every output must equal the specification model and be '
         'byte-identical across builds; SHA-224/256 one-shot at every input offset 0..31 x 0..20 blocks x tails {0,1,63}, contexts preloaded with prefixes of every length mod 64 '
         'then fed multi-block updates, BLAKE2b/2s keyed/unkeyed 0..5 blocks with every tail class, contexts embedded at offset 8 of a repr(C) struct inside a Vec, BLAKE2 byte counters preset next to 2^32/2^64/2^128 (hook), HMAC/PBKDF2/'
-        'scrypt/Argon2 samples, and the public ChaCha contexts (SSE2 engine) against the portable engine for every key/nonce length; memcheck and ASan run the +avx2 build; '
+        'scrypt/Argon2 samples, and the public ChaCha contexts (SSE2 engine) against the portable engine for every key/nonce length, single calls and whole histories (chunked processing, seek from any position, clone); memcheck and ASan run the +avx2 build; '
         'distinct = (op family, variant, offset, block count, tail) per build')
 ASSUMPTIONS = ['host CPU executes SSE4.1/AVX/AVX2 (checked at run time; a configuration the CPU cannot run is reported, not judged)', 'spec models of C01-C11']
 FLOORS = {'evaluations': 12000, 'distinct': 3000}
@@ -86,6 +86,13 @@ def gen(tier, seed):
                 if kl == 32:
                     yield 'sc xchacha %d %s %s s.0.%d p.0.%s #chacha-pair/xchacha/k32' % (rounds, key, n24, st, data)
                     yield 'sc pxchacha %d %s %s s.0.%d p.0.%s #chacha-pair/xchacha/k32' % (rounds, key, n24, st, data)
+                # whole histories (process / process_mut / in-place sub-slices / seek from any position / clone) on both engines
+                from .c04 import history
+                for pub, prt, nl_ in (('chacha', 'pchacha', 12), ('chachao', 'pchachao', 8)) + ((('xchacha', 'pxchacha', 24),) if kl == 32 else ()):
+                    hkey, hnonce = rng.data(kl), rng.data(nl_)
+                    steps = ' '.join(history(rng, pub, rng.rng(6, 25)))
+                    yield 'sc %s %d %s %s %s #chacha-pair/%s-history/k%d' % (pub, rounds, hkey, hnonce, steps, pub, kl)
+                    yield 'sc %s %d %s %s %s #chacha-pair/%s-history/k%d' % (prt, rounds, hkey, hnonce, steps, pub, kl)
                 for nl in (8, 12, 16):
                     yield 'pe %d %s %s #portable-init/k%d/n%d' % (rounds, key, rng.data(nl), kl, nl)
                 yield 'peh %d %s %s #portable-hchacha/k%d' % (rounds, key, rng.data(16), kl)
